@@ -206,4 +206,65 @@ theorem block_comment_is_skipped (w : List Nat) (hw : ∀ b ∈ w, b < 256) :
 example : (rowsOfState cmtStar).all (fun r => quietLanding (r.target 47) == none && quietLanding (r.target 42) == some cmtStar) = true := by
   decide +kernel
 
+/-! ### A line comment in PHP mode is skipped and changes nothing (C08, scanner half, third part) -/
+
+/-- the states the scanner is in while it reads the body of `// …` or `# …` -/
+def lcStates : List Nat := [130, 131]
+def lcBody : Nat := 130
+
+/-- every `when` condition of the row answers true (here: not at `?>` and not behind a line terminator) -/
+def condsTrue (r : DFARow) : Bool := r.conds.all (fun c => c.2 == 1)
+
+/-- the block that ends a line comment: returns no token, attaches one T_COMMENT, hands the byte back, continues in
+    the start state -/
+def lcExit (t : Nat) : Bool :=
+  match trOf t with
+  | some ti => !ti.emits && ti.ffs == [tComment] && ti.hold && ti.next == phpStart
+  | none => false
+
+/-- OBLIGATIONS (kernel-evaluated on the regenerated table) -/
+theorem lc_enter : (rowsOfState phpStart).all (fun r => quietLanding (r.target 35) == some lcBody) &&
+    (rowsOfState afterSlash).all (fun r => quietLanding (r.target 47) == some lcBody) = true := by decide +kernel
+theorem lc_loop : lcStates.all (fun st => (rowsOfState st).all (fun r => !condsTrue r || (List.range 256).all (fun b =>
+    match quietLanding (r.target b) with | some s => lcStates.contains s | none => false))) = true := by decide +kernel
+theorem lc_exit : lcStates.all (fun st => (rowsOfState st).all (fun r => condsTrue r || (List.range 256).all (fun b =>
+    lcExit (r.target b)))) = true := by decide +kernel
+theorem lc_rows_exist : lcStates.all (fun st => (rowsOfState st).any condsTrue && (rowsOfState st).any (fun r => !condsTrue r)) = true := by
+  decide +kernel
+
+/-- reading bytes from state `st` through rows all of whose conditions hold -/
+inductive LcRun : Nat → List Nat → Nat → Prop where
+  | nil (st : Nat) : LcRun st [] st
+  | cons (st b st' st'' : Nat) (r : DFARow) (w : List Nat) : r ∈ rowsOfState st → condsTrue r = true →
+      quietLanding (r.target b) = some st' → LcRun st' w st'' → LcRun st (b :: w) st''
+
+/-- C08, scanner half, line comments in PHP mode: `#` and `//` enter the same state; while the scanner's conditions
+    hold (it is not at `?>` and not behind a line terminator) ANY byte is read without returning or attaching
+    anything and the scanner stays in two states; as soon as a condition fails, whatever the byte, it attaches
+    exactly one T_COMMENT, hands the byte back and continues in its start state: the token after the comment is
+    scanned from the same state as if the comment were not there. -/
+theorem line_comment_is_skipped (w : List Nat) (hw : ∀ b ∈ w, b < 256) :
+    ∀ st st', st ∈ lcStates → LcRun st w st' → st' ∈ lcStates ∧
+      ∀ r ∈ rowsOfState st', condsTrue r = false → ∀ b, b < 256 → lcExit (r.target b) = true := by
+  have hexit : ∀ st ∈ lcStates, ∀ r ∈ rowsOfState st, condsTrue r = false → ∀ b, b < 256 → lcExit (r.target b) = true := by
+    intro st hst r hr hc b hb
+    have h1 := List.all_eq_true.mp lc_exit st hst
+    have h2 := List.all_eq_true.mp h1 r hr
+    simp only [hc, Bool.false_or] at h2
+    exact List.all_eq_true.mp h2 b (List.mem_range.mpr hb)
+  induction w with
+  | nil => intro st st' hst h; cases h; exact ⟨hst, hexit st hst⟩
+  | cons b w ih =>
+    intro st st' hst h
+    cases h with
+    | cons _ _ s1 _ r _ hr hc hl hrest =>
+      have h1 := List.all_eq_true.mp lc_loop st hst
+      have h2 := List.all_eq_true.mp h1 r hr
+      simp only [hc, Bool.not_true, Bool.false_or] at h2
+      have hb : b < 256 := hw b (List.mem_cons_self ..)
+      have h3 := List.all_eq_true.mp h2 b (List.mem_range.mpr hb)
+      rw [hl] at h3
+      have hs1 : s1 ∈ lcStates := by simpa using h3
+      exact ih (fun b' hb' => hw b' (List.mem_cons_of_mem _ hb')) s1 st' hs1 hrest
+
 end PhpVerif.Scanner
